@@ -1,4 +1,5 @@
 import XalanModel.C02.CompileProofs
+import XalanModel.C02.CompileWhole
 import XalanModel.C02.CompareProofs
 import XalanModel.C02.Predicates
 import XalanModel.C02.Doc
@@ -55,6 +56,23 @@ example : IsAtom (.num 0 0) ∧ (∀ x ∈ ([(.mult, 0, .var 3 4), (.div, 5, .li
   simp only [List.mem_cons, List.not_mem_nil, or_false] at hx
   rcases hx with h | h | h <;> subst h <;> exact ⟨trivial, trivial⟩
 
+/-- **`compile_encodes`: the compiler theorem for whole expression trees.**  For every well-formed tree `e` of the operator
+fragment (`E.WF`: binary operators left-associative with XPath precedence, `and`/`or` right-nested as `AndExpr`/`OrExpr`
+compile them, the operand of unary minus a union-level expression; atoms: number / string literals, variable references,
+name tests, `*`; parenthesised groups of any nesting), the model of `XPathProcessorImpl::initXPath … PrimaryExpr` compiles the
+tokens of `e` to exactly `[OP_XPATH, length] ++ enc e` — every operator header at its place with the right length, i.e. the
+op map *is* the prefix encoding of the tree the Recommendation assigns to the token sequence.  Holds for either value of the
+source-derived flags (compound operator tokens, unary recursion, LocationPath step check).
+`_partial`: unions `|`, multi-step paths, predicates and function calls as operands are not part of `E` (they are tied to the
+code by the compile correspondence only); nested unary minus (`- - e`, accepted since the fix) is excluded by `E.WF`. -/
+theorem compile_encodes_partial (e : E) (hw : e.WF) : compile e.toks = some (mk e.enc) :=
+  compile_encodes_all e hw
+
+/-- non-vacuity: `(1 + $x) * -a <= 'b' and c or * != 2` is well-formed -/
+example : (E.or 0 (E.and 0 (E.bin .le 0 (E.bin .mult 0 (E.group (E.bin .plus 0 (.num 0 1) (.var 3 4))) (E.neg (.nameStep .other 7)))
+    (.lit 9)) (.nameStep .other 11)) (E.bin .ne 0 .anyStep (.num 1 15))).WF := by
+  simp [E.WF, E.prec, BinOp.lvl]
+
 /-- the encoding of a left-nested chain: the operator headers outermost first, then the operands in
 source order — what `binLevel` builds by inserting every header at the same saved position. -/
 theorem enc_leftNested (a : E) (rest : Chain) :
@@ -76,11 +94,15 @@ expression): `UnaryExpr()` compiles the operand of `-` with `UnionExpr()`. -/
 theorem unary_minus_counterexample :
     unaryRecursesIntoUnary = false → compile [.minus, .minus, .num 0 2] = none := by decide
 
-/-- **`()`, `(1 + )` and `-` are compiled** although they are not expressions: `Step()` ignores `)`,
+/-- **`()`, `(1 + )` and `-` are compiled** (`locationPathRequiresStep = false`, the code before fix 410cc56) although they are not expressions: `Step()` ignores `)`,
 `LocationPath()` accepts the empty token; the result is an empty location path. -/
 theorem accepts_nonexpr_counterexample : locationPathRequiresStep = false →
     compile [.lpar, .rpar] = some (mk [eOP_GROUP, 5, eOP_LOCATIONPATH, 3, eENDOP]) ∧
-    (compile [.lpar, .num 0 1, .plus, .rpar]).isSome ∧ (compile [.minus]).isSome ∧
+    (compile [.lpar, .num 0 1, .plus, .rpar]).isSome ∧ (compile [.minus]).isSome := by decide
+
+/-- **`1 ! = 2` is compiled** (as `!=`) while `!` and `=` are separate tokens re-assembled by `EqualityExpr`
+(`compoundOperatorTokens = false`, the code before the proposed tokenizer fix). -/
+theorem split_operator_counterexample : compoundOperatorTokens = false →
     (compile [.num 0 0, .bang, .eq, .num 1 3]).isSome := by decide
 
 /-! ## Layer 2: comparison of every pair of types (XPath §3.4) -/
